@@ -344,7 +344,7 @@ func (f *File) startSegmentIfNeeded(b Box, boxStartPos uint64) {
 			}
 		}
 	case f.tfra != nil:
-		if boxStartPos == uint64(f.tfra.Entries[segIdx].MoofOffset) {
+		if segIdx < len(f.tfra.Entries) && boxStartPos == uint64(f.tfra.Entries[segIdx].MoofOffset) {
 			segStart = true
 		}
 	case (f.fileDecFlags & DecStartOnMoof) != 0:
@@ -352,7 +352,7 @@ func (f *File) startSegmentIfNeeded(b Box, boxStartPos uint64) {
 	default:
 		segStart = (segIdx == 0)
 	}
-	if segStart {
+	if segStart || segIdx == 0 { // There must be a segment to add the fragment to
 		f.isFragmented = true
 		ms := MediaSegment{
 			Styp:        nil,
